@@ -37,7 +37,8 @@ PLAN = {
     "C02": dict(
         level="other",
         functions=BATTERY_FNS + [E + "EV.charge", E + "EV.reset"] + SET_PILOT,
-        bounded=[dict(module="rt.drivers", fn="sim_monitor", label="whole-simulation ledger clauses")],
+        bounded=[dict(module="rt.drivers", fn="sim_monitor", label="whole-simulation ledger clauses"),
+                 dict(module="rt.drivers", fn="stochastic_sim_monitor", label="ledger clauses with early departure (StochasticNetwork)")],
         text="PROVED (all inputs, no bound): every battery charge variant updates the stored charge by exactly rate x V/1000 x period/60 "
              "for the rate it returns; EV.charge adds the same energy to the session's delivered energy and records the rate; the EV "
              "invariant 'delivered = battery charge - initial charge' is preserved by charge and re-established by reset; set_pilot "
@@ -139,6 +140,20 @@ PLAN = {
                  "heappop returns index 0, a heap's index 0 is minimal under Python's tuple order",
                  "cnt (multiplicity in a list prefix) is defined by recursion on the prefix length; list.append extends it (A-LIB)",
                  "A-INF: float('inf') stored in a real-sorted field is a constant > 1e30"],
+    ),
+    "C19": dict(
+        level="other",
+        bounded=[dict(module="rt.fnmon", fn="stochastic_monitor", label="operation sequences on StochasticNetwork against the FCFS model"),
+                 dict(module="rt.drivers", fn="stochastic_sim_monitor", label="whole simulations on a StochasticNetwork")],
+        text="BOUNDED so far: run-time contracts on the real StochasticNetwork - after every plugin / unplug / stale unplug / "
+             "post_charging_update of seeded operation sequences the representation invariant (each arrived EV in exactly one place, no "
+             "station with two EVs, nobody waits while a station is free, occupant.station_id = station, waiting.station_id = None) is "
+             "evaluated, the waiting queue is compared with the first-come-first-served model, the free station taken by random.choice is read "
+             "back and must have been free, counters are compared; whole simulations with more simultaneous sessions than stations must end "
+             "with every session gone and be reproducible under a fixed seed.",
+        note="no obligation is proved for C19 yet; bounded by the sequence / scenario space written in the evidence",
+        explanation="bounded run-time contract monitors only (rt.fnmon.stochastic_monitor, rt.drivers.stochastic_sim_monitor)",
+        technique="run-time contract monitor on the real functions (bounded stand-in); deductive obligations pending",
     ),
     "C13": dict(
         level="proof",
